@@ -141,12 +141,17 @@ fn main() {
             }
         };
         let wk = if weak_all && !reference_ok() { "-ill-conditioned" } else { "" };
+        // a plant at which the independent reference iteration is slow or fails as well is degenerate in
+        // the sense that matters here (singular solution: linear, not Newton-type, convergence)
+        let reference_fast = || reference_gauss_newton(&sys.reqs, &x0, sys.convergence_tolerance.max(1e-10), 8).is_some();
         match solve(&sys.reqs, sys.guesses.clone(), sys.config()) {
             Err(e) => bad(format!("solve fails ({:?}) although every guess is within {pert}*scale of an exact solution", e.error), format!("fails-near-solution{wk}:{}", kinds.join("+"))),
             Ok(o) => {
                 iter_hist[o.iterations().min(9)] += 1;
                 if o.is_unsatisfied() {
                     bad(format!("unsatisfied {:?} although started within {pert}*scale of an exact solution", o.unsatisfied()), format!("unsatisfied-near-solution{wk}:{}", kinds.join("+")));
+                } else if o.iterations() > 8 && xs.len() <= 260 && !reference_fast() {
+                    excl_illcond += 1;
                 } else if o.iterations() > 8 {
                     bad(format!("{} iterations from within {pert}*scale of an exact solution", o.iterations()), format!("slow-near-solution{wk}:{}", kinds.join("+")));
                 } else {
